@@ -260,7 +260,27 @@ pub fn gen_c19(seed: u64, thorough: bool) {
         push_u(&mut line, ns);
         push_u(&mut line, nops);
         push_iw(&mut line, engine.condition.get_interporation_weight(), ns);
+        let mut nv = nv;
         for _ in 0..nops {
+            if rng.chance(0.12) {
+                // another voice set (same family, another number of voices) loaded into the condition in use: the weight vectors
+                // are rebuilt for the new voice count (seeded change C19g: rebuilt only when the stream count changes)
+                let k2 = rng.range(1, 4);
+                let new_vs: Vec<Arc<Voice>> = (0..k2).map(|j| vs[j % vs.len()].clone()).collect();
+                for e in [&mut engine, &mut reference] {
+                    e.voices = VoiceSet::new(new_vs.clone()).expect("compatible voices");
+                    let v2 = e.voices.clone();
+                    e.condition.load_model(&v2).expect("load_model");
+                }
+                nv = k2;
+                push_s(&mut line, "reload");
+                push_u(&mut line, k2);
+                push_fs(&mut line, &[]);
+                push_s(&mut line, "reload");
+                push_s(&mut line, "ok");
+                push_iw(&mut line, engine.condition.get_interporation_weight(), ns);
+                continue;
+            }
             let (w, kind) = random_weights(&mut rng, nv);
             let which = rng.below(3);
             let i = rng.below(ns);
